@@ -99,6 +99,14 @@ func c19GenOverlay(r *rand.Rand, prefix string) c19Overlay {
 		if len(l) == 0 {
 			continue
 		}
+		// an upper layer that says null where a lower one has a value: a null carries no value, the lower one stays
+		if len(o.layers) > 0 && r.Intn(3) == 0 {
+			for _, k := range sortedKeys(o.layers[len(o.layers)-1]) {
+				if _, isMap := o.layers[len(o.layers)-1][k].(map[string]any); !isMap && r.Intn(2) == 0 {
+					l[k] = nil
+				}
+			}
+		}
 		o.names = append(o.names, fmt.Sprintf("%s%d", prefix, i))
 		o.layers = append(o.layers, l)
 	}
@@ -300,6 +308,15 @@ func c19Impact(r *rand.Rand) Case {
 				_ = ds.AddDocument(ov.names[0], dom.Builder().Container())
 				_ = ia.ResolveDocumentSet(ds, keys)
 				for li, n := range ov.names {
+					if i == 3 && li == len(ov.names)-1 {
+						// ... or whose last document is registered empty, asked about, and then filled IN PLACE by the application
+						_ = ds.AddDocument(n, dom.Builder().Container())
+						_ = ia.ResolveDocumentSet(ds, keys)
+						for _, k := range sortedKeys(ov.layers[li]) {
+							ds.NamedDocument(n).AddValue(k, anyToNode(ov.layers[li][k]))
+						}
+						continue
+					}
 					_ = ds.AddDocument(n, anyToContainer(ov.layers[li]))
 				}
 				m = ia.ResolveDocumentSet(ds, keys)
@@ -322,7 +339,7 @@ func c19Impact(r *rand.Rand) Case {
 func init() {
 	register(&Prop{
 		ID:   "C19",
-		Rule: "overlays of 1-3 layers over a pool of 5 leaf keys (a, b, c.d, e, f.g); string values are templates mentioning later pool keys (acyclic), unknown keys, defaults, repeated mentions, unterminated placeholders, defaults containing placeholders, look-alike keys and default forms before a plain mention, adjacent placeholders (unknown first), placeholder-like noise, a closing brace before the first placeholder; resolvers built from builders that are re-configured afterwards; impact analysis also through a document set changed between two calls on one analysis object; plus ints/bools/plain strings. kinds: dependency (source + 0-2 reference overlays; 20 repeated runs must give equal reports; AllKeys = OrphanKeys ⊎ keys(Map)), placeholder (key filters: all / prefix c / not a; 20 repeated runs), impact (requested key subsets incl. an unknown key). Sorted fields compared exactly, coordinate lists as multisets. Non-trivial: some value mentions >= 2 keys. Distinct by Gallina term. Keys defined as the empty string, a key below a mapping inside a list, layers that disagree about the kind of a node. Placeholder names computed by a nested placeholder, mentions of items of lists nested in lists, reference documents passed as a prefix of a caller-owned slice and then in full.",
+		Rule: "overlays of 1-3 layers over a pool of 5 leaf keys (a, b, c.d, e, f.g); string values are templates mentioning later pool keys (acyclic), unknown keys, defaults, repeated mentions, unterminated placeholders, defaults containing placeholders, look-alike keys and default forms before a plain mention, adjacent placeholders (unknown first), placeholder-like noise, a closing brace before the first placeholder; resolvers built from builders that are re-configured afterwards; impact analysis also through a document set changed between two calls on one analysis object (documents added, or a registered document filled in place); plus ints/bools/plain strings. kinds: dependency (source + 0-2 reference overlays; 20 repeated runs must give equal reports; AllKeys = OrphanKeys ⊎ keys(Map)), placeholder (key filters: all / prefix c / not a; 20 repeated runs), impact (requested key subsets incl. an unknown key). Sorted fields compared exactly, coordinate lists as multisets. Non-trivial: some value mentions >= 2 keys. Distinct by Gallina term. Keys defined as the empty string, a key below a mapping inside a list, layers that disagree about the kind of a node, upper layers that say null where a lower layer has a value. Placeholder names computed by a nested placeholder, mentions of items of lists nested in lists, reference documents passed as a prefix of a caller-owned slice and then in full.",
 		Gen: func(r *rand.Rand, tier string, idx int) Case {
 			switch idx % 3 {
 			case 0:
